@@ -156,7 +156,7 @@ def generate(tier, rng):
     # objects in the process does not grow with the number of requests served
     for tmpl in STREAMS:
         for v in (VALIDATORS if thorough else VALIDATORS[:1]):
-            yield make_case([tmpl], mode='repeat', n=1500 if thorough else 400, validator=v, vary=True)
+            yield make_case([tmpl], mode='repeat', n=3000 if thorough else 1200, validator=v, vary=True)
     # (c) thread pools dispatching interleaved corpora
     for threads in ((2, 4, 8, 16) if thorough else (2, 8)):
         for _ in range(4 if thorough else 2):
@@ -289,8 +289,8 @@ def run_half(c, is_async):
         # not possible, so bodies see an unknown object; only replies' kinds and liveness are observed here
         vary = c.get('vary')
         warm = 40 if vary else 0
-        base = None
-        for i in range(c['n'] + warm):
+        base = mid = None
+        for i in range((2 * c['n'] if vary else c['n']) + warm):
             ctx = Ctx2()
             if not vary or i < warm:
                 refs.append(weakref.ref(ctx))
@@ -300,10 +300,16 @@ def run_half(c, is_async):
                 last = None
                 gc.collect()
                 base = len(gc.get_objects())
+            if vary and i == warm + c['n'] - 1:
+                last = None
+                gc.collect()
+                mid = len(gc.get_objects())
         if vary:
+            # growth over the SECOND half of the stream: a bounded cache has filled up by then, a leak keeps growing
             keep, last = last, None
             gc.collect()
-            out['object_growth'] = len(gc.get_objects()) - base
+            out['object_growth'] = len(gc.get_objects()) - mid
+            out['object_growth_first_half'] = mid - base
             last = keep
         if any(r() is not None for r in refs):
             gc.collect()        # contexts kept alive by a reference cycle only are not retained
@@ -426,7 +432,8 @@ def oracle(prop, c, out):
             if o['cache_growth'] > len(c['cfg']['methods']) * (3 if c.get('validator') else 1):
                 fail('cache-grows', f'the validator caches grew by {o["cache_growth"]} entries over {c["n"]} dispatches')
             if c.get('vary') and o.get('object_growth', 0) > c['n'] // 4:
-                fail('memory-grows', f'{o["object_growth"]} more live objects after {c["n"]} further requests (all different) had been served and answered')
+                fail('memory-grows', f'{o["object_growth"]} more live objects over the second {c["n"]} requests of a stream of {2 * c["n"]} all-different requests '
+                                     f'({o.get("object_growth_first_half")} over the first)')
         else:
             if o['serial'] != o['threaded']:
                 bad = next(i for i, (a, b) in enumerate(zip(o['serial'], o['threaded'])) if a != b)
